@@ -70,3 +70,14 @@ Proof.
     + unfold frag_tail. destruct (fragment_start u); [|constructor].
       constructor; [unfold ok_or_space; lia | apply Forall_nskipn; exact Hoks].
 Qed.
+
+(* path() is kept *)
+Theorem qpm_path dbg u ops u' : wf_b u = true -> Forall ok_or_space (ser u) -> Forall op_ok ops ->
+  query_pairs_session dbg u ops = Some u' -> path u' = path u.
+Proof.
+  intros W Hoks Hops H.
+  assert (Forall (fun b => b < 128) (ser u)) as Hasc.
+  { eapply Forall_impl; [|exact Hoks]. intros b Hb. unfold ok_or_space in Hb. lia. }
+  destruct (session_shape dbg u W Hasc ops Hops) as (str' & H1 & F1 & F2 & F3 & _ & F5).
+  rewrite H in H1. inversion H1; subst u'. eapply path_edited; eassumption.
+Qed.
